@@ -152,10 +152,36 @@ def _writer_parts(func, counts_marker):
                                                   for c in ast.walk(v))]
     env = {nm: v for nm, v in _assign_pairs(func) if _fstringish(v)}
     comps = [(nm, v) for nm, v in _assign_pairs(func) if isinstance(v, ast.ListComp) and _fstringish(v.elt, env)]
-    if len(counts) != 1 or len(comps) != 2:
+    if len(counts) != 1 or len(comps) not in (2, 3):
         raise ValueError(f"{func.name}: counts line / atom lines / bond lines not found ({len(counts)}, {len(comps)})")
-    return {"counts": counts[0][1], "atoms": comps[0][1].elt, "bonds": comps[1][1].elt, "env": env,
-            "roles": {counts[0][0]: "counts", comps[0][0]: "atoms", comps[1][0]: "bonds"}}
+    roles = {counts[0][0]: "counts", comps[0][0]: "atoms", comps[1][0]: "bonds"}
+    if len(comps) == 3:
+        roles[comps[2][0]] = "charges"
+    return {"counts": counts[0][1], "atoms": comps[0][1].elt, "bonds": comps[1][1].elt, "env": env, "roles": roles,
+            "charges": comps[2][1].elt if len(comps) == 3 else None}
+
+
+def _ctab_functions(ctab):
+    """(V2000 writer, V3000 writer, V2000 reader, V3000 reader) found by what they contain — however the public dispatchers
+    select them (match, if/elif, a table)."""
+    funcs = [g for g in ctab.body if isinstance(g, ast.FunctionDef)]
+
+    def only(cands, what):
+        if len(cands) != 1:
+            raise ValueError(f"ctab.py: {what} not found by content ({len(cands)} candidates)")
+        return cands[0]
+
+    def is_writer(g, marker):
+        try:
+            _writer_parts(g, marker)
+            return True
+        except ValueError:
+            return False
+    w2 = only([g for g in funcs if is_writer(g, "V2000")], "the V2000 writer (counts line with `V2000`, atom and bond line f-strings)")
+    w3 = only([g for g in funcs if is_writer(g, "COUNTS")], "the V3000 writer (`COUNTS` line, atom and bond line f-strings)")
+    r2 = only([g for g in funcs if "M  CHG" in _str_calls(g, "startswith") and len(_slices_of(g)) >= 5], "the V2000 reader (column slices, `M  CHG`)")
+    r3 = only([g for g in funcs if "M  V30" in _str_calls(g, "startswith")], "the V3000 reader (`M  V30`)")
+    return w2, w3, r2, r3
 
 
 def _digit_guard(func, tree=None):
@@ -435,22 +461,20 @@ def _const_offsets(func, op):
                    and isinstance(n.right, ast.Constant) and isinstance(n.right.value, int)})
 
 
-def _gen_more(base):
+def _gen_more(base, L):
     ctab = ast.parse(open(os.path.join(base, "structure/io/mol/ctab.py")).read())
     sdf = ast.parse(open(os.path.join(base, "structure/io/mol/sdf.py")).read())
     molpy = ast.parse(open(os.path.join(base, "structure/io/mol/mol.py")).read())
     conv = ast.parse(open(os.path.join(base, "structure/io/mol/convert.py")).read())
     hdr = ast.parse(open(os.path.join(base, "structure/io/mol/header.py")).read())
     rd = ast.parse(open(os.path.join(base, "interface/rdkit/mol.py")).read())
-    L = []
 
     def emit(doc, name, typ, val):
         L.append(f"/-- {doc} -/")
         L.append(f"def {name} : {typ} := {val}")
 
     wtop, rtop = _find_func(ctab, "write_structure_to_ctab"), _find_func(ctab, "read_structure_from_ctab")
-    w2, w3 = _find_func(ctab, _case_callee(wtop, "V2000")), _find_func(ctab, _case_callee(wtop, "V3000"))
-    r2, r3 = _find_func(ctab, _case_callee(rtop, "V2000")), _find_func(ctab, _case_callee(rtop, "V3000"))
+    w2, w3, r2, r3 = _ctab_functions(ctab)
     p2, p3 = _writer_parts(w2, "V2000"), _writer_parts(w3, "COUNTS")
     T3 = "List (String × String × String)"
     emit("ctab.py `V2000_COMPATIBILITY_LINE`", "compatLine", "String", _lq(ast.literal_eval(_find_assign(ctab, "V2000_COMPATIBILITY_LINE"))))
@@ -460,15 +484,21 @@ def _gen_more(base):
     # charge line: the argument of charge_lines.append(...)
     app = [n for n in _nodes(w2) if isinstance(n, ast.Call) and isinstance(n.func, ast.Attribute) and n.func.attr == "append"
            and isinstance(n.func.value, ast.Name) and n.args and _fstringish(n.args[0])]
-    if len(app) != 1 or not (isinstance(app[0].args[0], ast.BinOp) and isinstance(app[0].args[0].op, ast.Add)):
-        raise ValueError("ctab.py: `charge_lines.append(f\"M  CHG...\" + \"\".join(...))` not found")
-    head, tail = app[0].args[0].left, app[0].args[0].right
+    if len(app) == 1:
+        chg_expr, chg_name = app[0].args[0], app[0].func.value.id            # charge_lines.append(f"M  CHG…" + "".join(…))
+    elif p2["charges"] is not None:
+        chg_expr, chg_name = p2["charges"], None                               # … or a comprehension of the same expression
+    else:
+        raise ValueError("ctab.py: the `M  CHG` line expression was not found")
+    if not (isinstance(chg_expr, ast.BinOp) and isinstance(chg_expr.op, ast.Add)):
+        raise ValueError("ctab.py: `f\"M  CHG...\" + \"\".join(...)` not found")
+    head, tail = chg_expr.left, chg_expr.right
     if not (isinstance(tail, ast.Call) and isinstance(tail.func, ast.Attribute) and tail.func.attr == "join"
             and isinstance(tail.func.value, ast.Constant) and tail.func.value.value == "" and isinstance(tail.args[0], ast.GeneratorExp)):
         raise ValueError("ctab.py: charge entries are not joined with ''")
     emit("`M  CHG` line head f-string", "chargeHeadShape", T3, _shape_lean(_fstring_shape(head)))
     emit("one `M  CHG` entry f-string", "chargeEntryShape", T3, _shape_lean(_fstring_shape(tail.args[0].elt)))
-    roles2 = dict(p2["roles"], **{app[0].func.value.id: "charges"})
+    roles2 = dict(p2["roles"], **({chg_name: "charges"} if chg_name else {}))
 
     def by_role(items, roles):
         return [("role:" + roles[i[5:]]) if i.startswith("name:") and i[5:] in roles else i for i in items]
@@ -746,6 +776,85 @@ def _gen_more(base):
 
 
 
+# every definition `_gen_more` emits, with its Lean type: what is still missing after a failure gets the type's empty value,
+# so that the Gen file always compiles and the failure shows up as broken NAMED obligations (C18_gen_*), never as a crash
+GEN_MORE_DECLS = [
+    ('compatLine', 'String'),
+    ('countsLineShape', 'List (String × String × String)'),
+    ('atomLineShape', 'List (String × String × String)'),
+    ('bondLineShape', 'List (String × String × String)'),
+    ('chargeHeadShape', 'List (String × String × String)'),
+    ('chargeEntryShape', 'List (String × String × String)'),
+    ('v2000LineOrder', 'List String'),
+    ('v3000CountsShape', 'List (String × String × String)'),
+    ('v3000AtomShape', 'List (String × String × String)'),
+    ('v3000BondShape', 'List (String × String × String)'),
+    ('v3000Skeleton', 'List String'),
+    ('v30Prefix', 'String'),
+    ('v3000Return', 'List String'),
+    ('toPropertyShape', 'List String'),
+    ('quoteShape', 'List String'),
+    ('r2StartsWith', 'List String'),
+    ('r2OpenSlices', 'List Nat'),
+    ('r3StartsWith', 'List String'),
+    ('r3OpenSlices', 'List Nat'),
+    ('blockMarkers', 'List String'),
+    ('blocksRead', 'List String'),
+    ('r3Columns', 'List String'),
+    ('r3Strings', 'List String'),
+    ('propSplit', 'List String'),
+    ('readerMinus', 'List Int'),
+    ('writerPlus', 'List Int'),
+    ('versionCases', 'List String'),
+    ('elemGuard', 'String × Nat'),
+    ('v2000GuardOrder', 'Bool'),
+    ('raisesTable', 'List (String × List String)'),
+    ('defaultsTable', 'List (String × List (String × String))'),
+    ('nHeader', 'Nat × Nat'),
+    ('recordDelimiter', 'String'),
+    ('keyNameRegex', 'String'),
+    ('keyComponentRegex', 'List (String × String)'),
+    ('keyExtRegex', 'List String'),
+    ('keyNumberGuards', 'List String'),
+    ('keySerializePieces', 'List String'),
+    ('valueChecks', 'List String'),
+    ('mdDeserializeStrings', 'List String'),
+    ('ctabStopShape', 'List String'),
+    ('ctabLinesShape', 'List String'),
+    ('delimiterTest', 'List String'),
+    ('delimiterCheck', 'List String'),
+    ('convertShape', 'List String'),
+    ('headerFieldSlices', 'List (String × Nat × Nat × Bool)'),
+    ('headerDataclassFields', 'List String'),
+    ('headerWriteOrder', 'List String'),
+    ('headerLineIndices', 'List Nat'),
+    ('addConformerKeywords', 'List String'),
+]
+
+
+def _lean_default(typ):
+    typ = typ.strip()
+    if typ.startswith("List"):
+        return "[]"
+    if "×" in typ:
+        return "(" + ", ".join(_lean_default(t) for t in typ.split("×")) + ")"
+    return {"String": '""', "Nat": "0", "Int": "0", "Bool": "false"}[typ]
+
+
+def _gen_more_total(base, problems):
+    L = []
+    try:
+        _gen_more(base, L)
+    except Exception as e:  # noqa: BLE001
+        problems.append("structure of the source: " + str(e))
+    have = {l.split()[1] for l in L if l.startswith("def ")}
+    for name, typ in GEN_MORE_DECLS:
+        if name not in have:
+            L.append(f"def {name} : {typ} := {_lean_default(typ)}")
+    return L
+
+
+
 def gen_lean():
     from common import paths
     base = os.path.join(paths.SRC, "biotite")
@@ -771,118 +880,151 @@ def gen_lean():
             raise ValueError("integer literal expected")
         return v
 
-    d = _find_assign(ctab, "BOND_TYPE_MAPPING")
-    bond_map = [(intlit(k), bt(v)) for k, v in zip(d.keys, d.values)]
-    d = _find_assign(ctab, "CHARGE_MAPPING")
-    charge_map = [(intlit(k), intlit(v)) for k, v in zip(d.keys, d.values)]
-    for nm in ("BOND_TYPE_MAPPING_REV", "CHARGE_MAPPING_REV"):
-        r = _find_assign(ctab, nm)
-        if not (isinstance(r, ast.DictComp) and isinstance(r.key, ast.Name) and isinstance(r.value, ast.Name)
-                and r.key.id != r.value.id):
-            raise ValueError(f"{nm} is not the swapped dict comprehension")
-    n_chg = intlit(_find_assign(ctab, "N_CHARGES_PER_LINE"))
-    wtop_, rtop_ = _find_func(ctab, "write_structure_to_ctab"), _find_func(ctab, "read_structure_from_ctab")
-    # the size test: the private function called in the dispatcher whose single return is `a < K and b < K`
-    cands = [g for g in ctab.body if isinstance(g, ast.FunctionDef) and g.name in _private_calls(wtop_)
-             and len([n for n in ast.walk(g) if isinstance(n, ast.Return)]) == 1
-             and isinstance([n for n in ast.walk(g) if isinstance(n, ast.Return)][0].value, ast.BoolOp)]
-    if len(cands) != 1:
-        raise ValueError("write_structure_to_ctab: the V2000 size test (`a < K and b < K`) was not found")
-    f = cands[0]
-    ret = [n for n in ast.walk(f) if isinstance(n, ast.Return)]
-    if len(ret) != 1 or not isinstance(ret[0].value, ast.BoolOp) or not isinstance(ret[0].value.op, ast.And):
-        raise ValueError("_is_v2000_compatible: expected `a < K and b < K`")
-    bounds = []
-    for cmp_ in ret[0].value.values:
-        if not (isinstance(cmp_, ast.Compare) and len(cmp_.ops) == 1 and isinstance(cmp_.left, ast.Name)):
-            raise ValueError("_is_v2000_compatible: unexpected comparison")
-        op = {ast.Lt: 0, ast.LtE: 1}.get(type(cmp_.ops[0]))
-        if op is None:
-            raise ValueError("_is_v2000_compatible: unexpected operator")
-        bounds.append((cmp_.left.id, intlit(cmp_.comparators[0]) + op))      # exclusive bound
-    args = [a.arg for a in f.args.args]
-    excl = [b for a in args for (nm, b) in bounds if nm == a]
-    if len(excl) != 2:
-        raise ValueError("_is_v2000_compatible: both arguments must be bounded")
-    # coordinate digit limit in both writers
-    w2_, w3_ = _find_func(ctab, _case_callee(wtop_, "V2000")), _find_func(ctab, _case_callee(wtop_, "V3000"))
-    digit_limits = [_digit_guard(w2_, ctab)[0], _digit_guard(w3_, ctab)[0]]
-    rdr = _find_func(ctab, _case_callee(rtop_, "V2000"))
-    slices = _slices_of(rdr)
-    # the counts parser: the call whose result is unpacked into two names; the version getter: the subject of the `match`
-    counts_fn = [n.value.func.id for n in _nodes(rdr) if isinstance(n, ast.Assign) and isinstance(n.targets[0], ast.Tuple)
-                 and isinstance(n.value, ast.Call) and isinstance(n.value.func, ast.Name)]
-    version_fn = [n.subject.func.id for n in _nodes(rtop_) if isinstance(n, ast.Match) and isinstance(n.subject, ast.Call)
-                  and isinstance(n.subject.func, ast.Name)]
-    if len(counts_fn) != 1 or len(version_fn) != 1:
-        raise ValueError("ctab.py: counts parser / version getter not found")
-    counts_slices = _slices_of(_find_func(ctab, counts_fn[0]))
-    version_slice = _slices_of(_find_func(ctab, version_fn[0]))
-    parts2 = _writer_parts(w2_, "V2000")
+    problems = []
+    try:
+        d = _find_assign(ctab, "BOND_TYPE_MAPPING")
+        bond_map = [(intlit(k), bt(v)) for k, v in zip(d.keys, d.values)]
+        d = _find_assign(ctab, "CHARGE_MAPPING")
+        charge_map = [(intlit(k), intlit(v)) for k, v in zip(d.keys, d.values)]
+        for nm in ("BOND_TYPE_MAPPING_REV", "CHARGE_MAPPING_REV"):
+            r = _find_assign(ctab, nm)
+            if not (isinstance(r, ast.DictComp) and isinstance(r.key, ast.Name) and isinstance(r.value, ast.Name)
+                    and r.key.id != r.value.id):
+                raise ValueError(f"{nm} is not the swapped dict comprehension")
+        n_chg = intlit(_find_assign(ctab, "N_CHARGES_PER_LINE"))
+        wtop_, rtop_ = _find_func(ctab, "write_structure_to_ctab"), _find_func(ctab, "read_structure_from_ctab")
+        # the size test: the private function called in the dispatcher whose single return is `a < K and b < K`
+        def size_test_value(g):
+            rets = [n for n in ast.walk(g) if isinstance(n, ast.Return)]
+            if len(rets) != 1 or len(g.args.args) != 2:
+                return None
+            v = rets[0].value
+            if isinstance(v, ast.BoolOp) and isinstance(v.op, ast.And):
+                return list(v.values)                                           # a < K and b < K
+            if isinstance(v, ast.Compare) and isinstance(v.left, ast.Call) and getattr(v.left.func, "id", "") == "max" and len(v.ops) == 1:
+                return [ast.Compare(left=a, ops=v.ops, comparators=v.comparators) for a in v.left.args]      # max(a, b) < K
+            return None
+        cands = [g for g in ctab.body if isinstance(g, ast.FunctionDef) and g.name in _private_calls(wtop_) and size_test_value(g) is not None]
+        if len(cands) != 1:
+            raise ValueError("write_structure_to_ctab: the V2000 size test (`a < K and b < K`) was not found")
+        f = cands[0]
+        bounds = []
+        for cmp_ in size_test_value(f):
+            if not (isinstance(cmp_, ast.Compare) and len(cmp_.ops) == 1 and isinstance(cmp_.left, ast.Name)):
+                raise ValueError("_is_v2000_compatible: unexpected comparison")
+            op = {ast.Lt: 0, ast.LtE: 1}.get(type(cmp_.ops[0]))
+            if op is None:
+                raise ValueError("_is_v2000_compatible: unexpected operator")
+            bounds.append((cmp_.left.id, intlit(cmp_.comparators[0]) + op))      # exclusive bound
+        args = [a.arg for a in f.args.args]
+        excl = [b for a in args for (nm, b) in bounds if nm == a]
+        if len(excl) != 2:
+            raise ValueError("_is_v2000_compatible: both arguments must be bounded")
+        # coordinate digit limit in both writers
+        w2_, w3_, rdr, _r3 = _ctab_functions(ctab)
+        digit_limits = [_digit_guard(w2_, ctab)[0], _digit_guard(w3_, ctab)[0]]
+        slices = _slices_of(rdr)
+        # the counts parser: the call whose result is unpacked into two names; the version getter: the subject of the `match`
+        counts_fn = [n.value.func.id for n in _nodes(rdr) if isinstance(n, ast.Assign) and isinstance(n.targets[0], ast.Tuple)
+                     and isinstance(n.value, ast.Call) and isinstance(n.value.func, ast.Name)]
+        # the version getter: the private helper of the reading dispatcher that cuts one constant slice out of a line
+        version_fn = [nm for nm in _private_calls(rtop_) if any(isinstance(g, ast.FunctionDef) and g.name == nm and g is not rdr and g is not _r3
+                                                                   and len(_slices_of(g)) == 1 for g in ctab.body)]
+        if len(counts_fn) != 1 or len(version_fn) != 1:
+            raise ValueError("ctab.py: counts parser / version getter not found")
+        counts_slices = _slices_of(_find_func(ctab, counts_fn[0]))
+        version_slice = _slices_of(_find_func(ctab, version_fn[0]))
+        parts2 = _writer_parts(w2_, "V2000")
 
-    def widths_of(expr):
-        out_ = []
-        for parts_, rep_ in _flatten_fstring(expr, parts2["env"]):
-            out_ += _format_widths(parts_) * rep_
-        return out_
-    atom_w, bond_w, counts_w = widths_of(parts2["atoms"]), widths_of(parts2["bonds"]), widths_of(parts2["counts"])
+        def widths_of(expr):
+            out_ = []
+            for parts_, rep_ in _flatten_fstring(expr, parts2["env"]):
+                out_ += _format_widths(parts_) * rep_
+            return out_
+        atom_w, bond_w, counts_w = widths_of(parts2["atoms"]), widths_of(parts2["bonds"]), widths_of(parts2["counts"])
+    except Exception as e:  # noqa: BLE001   (the facts of this group become empty: a NAMED obligation breaks)
+        problems.append("ctab.py tables / layout: " + str(e))
+        bond_map = []
+        charge_map = []
+        n_chg = 0
+        excl = [0, 0]
+        digit_limits = []
+        slices = []
+        counts_slices = []
+        version_slice = []
+        atom_w = []
+        bond_w = []
+        counts_w = []
+    try:
+        def rdname(node):
+            name, chem = _attr_name(node, "BondType")
+            if not chem:
+                raise ValueError("expected Chem.BondType.<member>")
+            return name
 
-    def rdname(node):
-        name, chem = _attr_name(node, "BondType")
-        if not chem:
-            raise ValueError("expected Chem.BondType.<member>")
-        return name
-
-    d = _dicts_of(rd, "bt", "rd")
-    to_rd = [(bt(k), rdname(v)) for k, v in zip(d.keys, d.values)]
-    d = _dicts_of(rd, "rd", "bt")
-    from_rd = [(rdname(k), bt(v)) for k, v in zip(d.keys, d.values)]
-    d = _dicts_of(rd, "bt", "bt")
-    kek = [(bt(k), bt(v)) for k, v in zip(d.keys, d.values)]
-
-    # header.py: slices of the second header line, widths/precisions of the writer's f-string, date format, name limit
-    hdr = ast.parse(open(os.path.join(base, "structure/io/mol/header.py")).read())
-    hde = _find_func(hdr, "deserialize")
-    hs_raw = []
-    for node in _nodes(hde):
-        if isinstance(node, ast.Subscript) and isinstance(node.slice, ast.Slice) and isinstance(node.value, ast.Subscript) \
-                and isinstance(node.value.value, ast.Name) \
-                and isinstance(node.value.slice, ast.Constant) and node.value.slice.value == 1:
-            lo, hi = node.slice.lower, node.slice.upper
-            if not (isinstance(lo, ast.Constant) and isinstance(hi, ast.Constant)):
-                raise ValueError("header.py: non-constant slice of lines[1]")
-            hs_raw.append((node.lineno, node.col_offset, lo.value, hi.value))
-    header_slices = [(a, b) for _, _, a, b in sorted(hs_raw)]
-    if len(header_slices) < 5:
-        raise ValueError("header.py: slices of lines[1] not found")
-    hse = _find_func(hdr, "serialize")
-    joined = [n for n in ast.walk(hse) if isinstance(n, ast.JoinedStr)
-              and sum(isinstance(v, ast.FormattedValue) for v in n.values) >= 5]
-    if len(joined) != 1:
-        raise ValueError("header.py: fixed-column f-string not found")
-    header_fields = []
-    for part in joined[0].values:
-        if isinstance(part, ast.FormattedValue):
-            spec = "".join(p_.value for p_ in part.format_spec.values if isinstance(p_, ast.Constant)) if part.format_spec else ""
-            mm = re.fullmatch(r"(>)(\d+)\.(\d+)", spec)
-            if not mm:
-                raise ValueError(f"header.py: unexpected format spec {spec!r}")
-            header_fields.append((int(mm.group(2)), int(mm.group(3))))
-        elif not (isinstance(part, ast.Constant) and part.value == "\n"):
-            raise ValueError("header.py: unexpected literal in the fixed-column line")
-    module_names = {(b.targets[0] if isinstance(b, ast.Assign) else b.target).id for b in hdr.body
-                    if isinstance(b, (ast.Assign, ast.AnnAssign)) and isinstance(b.targets[0] if isinstance(b, ast.Assign) else b.target, ast.Name)}
-    fmt_names = {n.args[-1].id for f_ in (hde, hse) for n in _nodes(f_) if isinstance(n, ast.Call)
-                 and getattr(n.func, "attr", "") in ("strptime", "strftime") and n.args and isinstance(n.args[-1], ast.Name)
-                 and n.args[-1].id in module_names}
-    if len(fmt_names) != 1:
-        raise ValueError("header.py: the date format constant used by strptime/strftime was not found")
-    date_format = _module_value(hdr, fmt_names.pop())
-    name_limits = [intlit(n.comparators[0]) for n in _nodes(hse) if isinstance(n, ast.Compare) and isinstance(n.ops[0], ast.Gt)
-                   and isinstance(n.left, ast.Call) and getattr(n.left.func, "id", "") == "len"]
-    if len(name_limits) != 1:
-        raise ValueError("header.py: molecule name length guard not found")
-
+        d = _dicts_of(rd, "bt", "rd")
+        to_rd = [(bt(k), rdname(v)) for k, v in zip(d.keys, d.values)]
+        d = _dicts_of(rd, "rd", "bt")
+        from_rd = [(rdname(k), bt(v)) for k, v in zip(d.keys, d.values)]
+        d = _dicts_of(rd, "bt", "bt")
+        kek = [(bt(k), bt(v)) for k, v in zip(d.keys, d.values)]
+    except Exception as e:  # noqa: BLE001   (the facts of this group become empty: a NAMED obligation breaks)
+        problems.append("rdkit bond tables: " + str(e))
+        to_rd = []
+        from_rd = []
+        kek = []
+    try:
+        # header.py: slices of the second header line, widths/precisions of the writer's f-string, date format, name limit
+        hdr = ast.parse(open(os.path.join(base, "structure/io/mol/header.py")).read())
+        hde = _find_func(hdr, "deserialize")
+        hs_raw = []
+        def is_line1(x, func):
+            """`<name>[1]`, or a local that was bound to it"""
+            if isinstance(x, ast.Subscript) and isinstance(x.value, ast.Name) and isinstance(x.slice, ast.Constant) and x.slice.value == 1:
+                return True
+            return isinstance(x, ast.Name) and any(nm == x.id and is_line1(v, None) for nm, v in (_assign_pairs(func) if func is not None else []))
+        for node in _nodes(hde):
+            if isinstance(node, ast.Subscript) and isinstance(node.slice, ast.Slice) and is_line1(node.value, hde):
+                lo, hi = node.slice.lower, node.slice.upper
+                if not (isinstance(lo, ast.Constant) and isinstance(hi, ast.Constant)):
+                    raise ValueError("header.py: non-constant slice of lines[1]")
+                hs_raw.append((node.lineno, node.col_offset, lo.value, hi.value))
+        header_slices = [(a, b) for _, _, a, b in sorted(hs_raw)]
+        if len(header_slices) < 5:
+            raise ValueError("header.py: slices of lines[1] not found")
+        hse = _find_func(hdr, "serialize")
+        joined = [n for n in ast.walk(hse) if isinstance(n, ast.JoinedStr)
+                  and sum(isinstance(v, ast.FormattedValue) for v in n.values) >= 5]
+        if len(joined) != 1:
+            raise ValueError("header.py: fixed-column f-string not found")
+        header_fields = []
+        for part in joined[0].values:
+            if isinstance(part, ast.FormattedValue):
+                spec = "".join(p_.value for p_ in part.format_spec.values if isinstance(p_, ast.Constant)) if part.format_spec else ""
+                mm = re.fullmatch(r"(>)(\d+)\.(\d+)", spec)
+                if not mm:
+                    raise ValueError(f"header.py: unexpected format spec {spec!r}")
+                header_fields.append((int(mm.group(2)), int(mm.group(3))))
+            elif not (isinstance(part, ast.Constant) and part.value == "\n"):
+                raise ValueError("header.py: unexpected literal in the fixed-column line")
+        module_names = {(b.targets[0] if isinstance(b, ast.Assign) else b.target).id for b in hdr.body
+                        if isinstance(b, (ast.Assign, ast.AnnAssign)) and isinstance(b.targets[0] if isinstance(b, ast.Assign) else b.target, ast.Name)}
+        fmt_names = {n.args[-1].id for f_ in (hde, hse) for n in _nodes(f_) if isinstance(n, ast.Call)
+                     and getattr(n.func, "attr", "") in ("strptime", "strftime") and n.args and isinstance(n.args[-1], ast.Name)
+                     and n.args[-1].id in module_names}
+        if len(fmt_names) != 1:
+            raise ValueError("header.py: the date format constant used by strptime/strftime was not found")
+        date_format = _module_value(hdr, fmt_names.pop())
+        name_limits = [intlit(n.comparators[0]) for n in _nodes(hse) if isinstance(n, ast.Compare) and isinstance(n.ops[0], ast.Gt)
+                       and isinstance(n.left, ast.Call) and getattr(n.left.func, "id", "") == "len"]
+        if len(name_limits) != 1:
+            raise ValueError("header.py: molecule name length guard not found")
+    except Exception as e:  # noqa: BLE001   (the facts of this group become empty: a NAMED obligation breaks)
+        problems.append("header.py layout: " + str(e))
+        header_slices = []
+        header_fields = []
+        date_format = ""
+        name_limits = [0]
     def pairs(xs, f=str, g=str):
         return "[" + ", ".join(f"({f(a)}, {g(b)})" for a, b in xs) + "]"
 
@@ -927,7 +1069,9 @@ def gen_lean():
         "def headerFields : List (Nat × Nat) := " + pairs(header_fields),
         f"def headerDateFormat : String := {q(date_format)}",
         f"def headerNameLimit : Nat := {name_limits[0]}",
-        ] + _gen_more(base) + [
+        ] + _gen_more_total(base, problems) + [
+        "/-- what the extractor could not find in the current source (must be empty) -/",
+        "def extractorProblems : List String := " + _lstrs(problems),
         "end BiotiteModel.Gen.C18", ""]
     return {"BiotiteModel/Gen/C18.lean": "\n".join(body)}
 
